@@ -222,15 +222,14 @@ def r4(ctx, cfg):
         if f is None:
             continue
         n = 0
-        for g, bid, t in q.lexical_calls(F, key, lambda c: c["key"] in (cs, "wasm::Wasm::contract_data", W + "get_env")):
+        for g, bid, t in q.lexical_calls(F, key, lambda c: c["key"] in (cs, "wasm::Wasm::contract_data")):
             a = P.call_args(g, t, bid)
-            idx = 1 if t["callee"]["key"] == W + "get_env" else 2
             n += 1
-            ctx.ob(R, key, "%s-uses-address" % t["callee"]["name"], is_param(a[idx], "address"),
-                   "%s is keyed by %s, expected the call's address" % (t["callee"]["key"], fmt(a[idx])), fn=g, line=t["line"],
-                   sample=fmt(a[idx]))
-        ctx.ob(R, key, "lookup+storage+env", n == 3, "expected contract_data, %s and get_env (found %d)" % (cs, n), fn=f,
-               sample="3 uses of address")
+            ctx.ob(R, key, "%s-uses-address" % t["callee"]["name"], is_param(a[2], "address"),
+                   "%s is keyed by %s, expected the call's address" % (t["callee"]["key"], fmt(a[2])), fn=g, line=t["line"],
+                   sample=fmt(a[2]))
+        ctx.ob(R, key, "lookup+storage+env", n == 2, "expected contract_data and %s keyed by the address (found %d)" % (cs, n), fn=f,
+               sample="contract_data(address), %s(address)" % cs.rsplit("::", 1)[1])
         # handler comes from the stored code id of that contract
         cc = q.lexical_calls(F, key, W + "contract_code")
         ok = len(cc) == 1
@@ -249,10 +248,16 @@ def r4(ctx, cfg):
             ok = tup[0] == "agg" and len(tup[2]) == 3
             if ok:
                 h, deps, env = [peel(v) for _, v in tup[2]]
-                ok = env[0] == "call" and env[1] == W + "get_env" and deps[0] == "agg" and \
+                # the Env the contract sees: this call's block and this call's address (whether built by a helper such as
+                # get_env - constructor-like functions are expanded by the provenance engine - or in place)
+                ok = env[0] == "agg" and env[1].startswith("cosmwasm_std::Env") and deps[0] == "agg" and \
                     (contains(h, lambda x: x[0] == "call" and x[1] == W + "contract_code"))
+                if ok:
+                    ed = dict(env[2])
+                    ci = peel(ed.get("contract", ("?",)))
+                    ok = is_param(ed.get("block", ("?",)), "block") and ci[0] == "agg" and is_param(dict(ci[2]).get("address", ("?",)), "address")
         ctx.ob(R, key, "action(handler, deps, env)", ok, "action is not invoked with (handler, deps, env) built here", fn=f,
-               sample="action(contract_code(..), Deps{..}, get_env(address, block))")
+               sample="action(contract_code(..), Deps{..}, Env{block, contract: address})")
     # dispatch sites: address given to call_X == contract given to process_response
     from rules.C04 import DISPATCH, ADDR_ARG
     PR = W + "process_response"
